@@ -10,6 +10,7 @@ import (
 	"go/token"
 	"go/types"
 	"math/big"
+	"os"
 	"sort"
 	"strings"
 
@@ -492,6 +493,7 @@ func (x *Exec) havoc(fr *Frame, ns, old *State, ms *ModSet, reach *Term, hint st
 		f := ms.Fams[k]
 		ns.fams[k] = f
 		ns.heap[k] = x.vc.fresh("H."+k, f.Sort)
+		x.hp.closedness(ns.heap[k], f, ns.ctr.S)
 	}
 	for _, k := range sortedFamKeys(ms.AllocFams) {
 		f := ms.AllocFams[k]
@@ -499,6 +501,7 @@ func (x *Exec) havoc(fr *Frame, ns, old *State, ms *ModSet, reach *Term, hint st
 		ns.fams[k] = f
 		nv := x.vc.fresh("H."+k, f.Sort)
 		ns.heap[k] = nv
+		x.hp.closedness(nv, f, ns.ctr.S)
 		// objects that existed at loop entry are unchanged
 		x.vc.assume(tTrue, mkRaw(fmt.Sprintf("(forall ((r!f Int)) (! (=> (<= r!f %s) (= (select %s r!f) (select %s r!f))) :pattern ((select %s r!f))))", old.ctr.S, nv.S, oldv.S, nv.S), SBool))
 	}
@@ -679,6 +682,7 @@ func (x *Exec) globalRef(g *ssa.Global) *Term {
 	// globals live at negative addresses, pairwise distinct, disjoint from allocated refs
 	x.vc.assertGlobal(fmt.Sprintf("(= %s (- %d))", name, id))
 	x.globals[g] = t
+	x.modelGlobalInit(g, t)
 	return t
 }
 
@@ -762,3 +766,209 @@ func (x *Exec) newRef(st *State) *Term {
 	return r
 }
 
+
+// ---------- package-level variables ----------
+
+// writtenGlobals: globals assigned anywhere outside their package initialiser.
+func (ld *Loaded) writtenGlobals() map[*ssa.Global]bool {
+	if ld.written != nil {
+		return ld.written
+	}
+	ld.written = map[*ssa.Global]bool{}
+	rootGlobal := func(v ssa.Value) *ssa.Global {
+		for {
+			switch a := v.(type) {
+			case *ssa.Global:
+				return a
+			case *ssa.FieldAddr:
+				v = a.X
+			case *ssa.IndexAddr:
+				v = a.X
+			default:
+				return nil
+			}
+		}
+	}
+	for _, fn := range ld.funcs {
+		if fn.Name() == "init" && fn.Synthetic != "" {
+			continue
+		}
+		for _, b := range fn.Blocks {
+			for _, in := range b.Instrs {
+				switch in := in.(type) {
+				case *ssa.Store:
+					if g := rootGlobal(in.Addr); g != nil {
+						ld.written[g] = true
+					}
+				case ssa.CallInstruction:
+					// address of a global passed to a call: may be written
+					for _, a := range in.Common().Args {
+						if g := rootGlobal(a); g != nil {
+							ld.written[g] = true
+						}
+					}
+				}
+			}
+		}
+	}
+	return ld.written
+}
+
+// modelGlobalInit: a package-level variable that is never assigned outside its package initialiser
+// and is initialised from constants (composite literals) gets its initial value asserted.
+func (x *Exec) modelGlobalInit(g *ssa.Global, ref *Term) {
+	if g.Pkg == nil || x.ld.writtenGlobals()[g] {
+		if os.Getenv("GOVC_DEBUG") != "" {
+			fmt.Fprintln(os.Stderr, "modelGlobalInit", g.Name(), "skipped: written or no pkg")
+		}
+		return
+	}
+	initFn := g.Pkg.Func("init")
+	if initFn == nil {
+		return
+	}
+	el := g.Type().Underlying().(*types.Pointer).Elem()
+	// scratch evaluation of the initialiser: only allocation, field addressing, loads, stores of constants
+	st := &State{cells: map[*cellID]*Sym{}, heap: map[string]*Term{}, fams: map[string]Family{}, ghost: map[string]*Term{}, ctr: mkRaw("ctr.init", SInt)}
+	fr := &Frame{fn: initFn, vals: map[ssa.Value]*Sym{}, cells: map[*ssa.Alloc]*cellID{}}
+	known := map[ssa.Value]bool{}
+	var final *Sym
+	var direct map[int]*Term
+	ok := func(v ssa.Value) bool {
+		switch v.(type) {
+		case *ssa.Const, *ssa.Global:
+			return true
+		}
+		return known[v]
+	}
+	defer func() {
+		if r := recover(); r != nil && os.Getenv("GOVC_DEBUG") != "" {
+			fmt.Fprintln(os.Stderr, "modelGlobalInit", g.Name(), "panic:", r)
+		}
+	}()
+	for _, b := range initFn.Blocks {
+		for _, in := range b.Instrs {
+			func() {
+				defer func() {
+					if r := recover(); r != nil && os.Getenv("GOVC_DEBUG") != "" {
+						fmt.Fprintln(os.Stderr, "modelGlobalInit instr", in, "panic:", r)
+					}
+				}()
+				switch in := in.(type) {
+				case *ssa.Alloc:
+					if !in.Heap {
+						x.doAlloc(fr, in, st)
+						known[in] = true
+					}
+				case *ssa.FieldAddr:
+					if ok(in.X) {
+						p := x.get(fr, in.X)
+						stT := in.X.Type().Underlying().(*types.Pointer).Elem()
+						fr.vals[in] = &Sym{T: in.Type(), LV: lvalOfPtr(p, stT).fieldOf(in.Field)}
+						known[in] = true
+					}
+				case *ssa.UnOp:
+					if in.Op == token.MUL && ok(in.X) {
+						if _, isG := in.X.(*ssa.Global); isG {
+							return
+						}
+						p := x.get(fr, in.X)
+						if p.LV != nil && p.LV.Root == RCell {
+							fr.vals[in] = x.hp.load(st, p.LV)
+							known[in] = true
+						}
+					}
+				case *ssa.Convert, *ssa.ChangeType:
+					ops := in.(ssa.Instruction).Operands(nil)
+					if len(ops) == 1 && ok(*ops[0]) {
+						x.execInstr(fr, in.(ssa.Instruction), tTrue, st)
+						known[in.(ssa.Value)] = true
+					}
+				case *ssa.Store:
+					if gg, isG := in.Addr.(*ssa.Global); isG {
+						if gg.Name() == g.Name() && os.Getenv("GOVC_DEBUG") != "" {
+							fmt.Fprintln(os.Stderr, "same name", gg == g)
+						}
+						if gg == g && os.Getenv("GOVC_DEBUG") != "" {
+							fmt.Fprintln(os.Stderr, "modelGlobalInit store to", g.Name(), "val", in.Val, "ok", ok(in.Val))
+						}
+						if gg == g && ok(in.Val) {
+							final = x.get(fr, in.Val)
+						}
+						return
+					}
+					if ok(in.Addr) && ok(in.Val) {
+						p := x.get(fr, in.Addr)
+						if p.LV != nil && p.LV.Root == RCell {
+							x.hp.store(st, p.LV, x.get(fr, in.Val))
+						}
+						// direct initialisation of a field of the global (older go/ssa builds)
+						if p.LV != nil && (p.LV.Root == RStruct || p.LV.Root == RBox) && p.LV.Ref.S == ref.S && p.LV.Sub == nil && p.LV.Byte == nil {
+							v := x.get(fr, in.Val)
+							if v.LV == nil {
+								if direct == nil {
+									direct = map[int]*Term{}
+								}
+								for i, l := range v.L {
+									direct[p.LV.Off+i] = l
+								}
+							}
+						}
+					}
+				}
+			}()
+		}
+	}
+	if os.Getenv("GOVC_DEBUG") != "" {
+		n := 0
+		for _, b := range initFn.Blocks {
+			n += len(b.Instrs)
+		}
+		fmt.Fprintln(os.Stderr, "modelGlobalInit", g.Name(), "final", final != nil, "blocks", len(initFn.Blocks), "instrs", n, "known", len(known), initFn.String())
+	}
+	if final == nil && direct != nil {
+		// only the directly initialised leaves are asserted (others stay unconstrained)
+		n := len(leavesOf(el))
+		final = &Sym{T: el, L: make([]*Term, n)}
+		for i := range final.L {
+			final.L[i] = mkRaw("?", "?")
+		}
+		for i, l := range direct {
+			if i < n {
+				final.L[i] = l
+			}
+		}
+	}
+	if final == nil || final.LV != nil {
+		return
+	}
+	// assert the initial heap at the global's address
+	entry := &State{cells: map[*cellID]*Sym{}, heap: map[string]*Term{}, fams: map[string]Family{}, ghost: map[string]*Term{}, ctr: x.ctr0}
+	cur := x.loadPtr(entry, scalar(g.Type(), ref), el)
+	for i := range cur.L {
+		if i < len(final.L) && (final.L[i].Lit != nil || final.L[i].BLit != 0 || final.L[i].Sort == SStr) {
+			x.vc.assertGlobal(mkEq(cur.L[i], final.L[i]).S)
+		}
+	}
+	addUnique(&x.report.ContractUsed, "initial value of package variable "+strings.TrimPrefix(g.String(), modPrefix)+" (never reassigned)")
+}
+
+// typeByName finds a named type "pkgpath.Name" (module prefix optional) in the loaded program.
+func (x *Exec) typeByName(name string) types.Type {
+	i := strings.LastIndex(name, ".")
+	if i < 0 {
+		panic("typeByName: need pkg.Name: " + name)
+	}
+	pkg, tn := name[:i], name[i+1:]
+	for _, p := range x.ld.prog.AllPackages() {
+		pp := p.Pkg.Path()
+		if pp == pkg || pp == strings.TrimSuffix(modPrefix, "/")+"/"+pkg || strings.HasSuffix(pp, "/"+pkg) {
+			if o := p.Pkg.Scope().Lookup(tn); o != nil {
+				if t, ok := o.(*types.TypeName); ok {
+					return t.Type()
+				}
+			}
+		}
+	}
+	panic("typeByName: type not found: " + name)
+}
